@@ -157,9 +157,9 @@ def canon_locals(body, decls):
         for nm in names:
             if nm == canon:
                 continue
-            if canon not in names and re.search(r"\b%s\b" % re.escape(canon), body):
+            if canon not in names and re.search(r"(?<!\\)\b%s\b" % re.escape(canon), body):
                 raise ExtractError("cannot canonicalise local %s -> %s: name already used" % (nm, canon))
-            body = re.sub(r"\b%s\b" % re.escape(nm), canon, body)
+            body = re.sub(r"(?<!\\)\b%s\b" % re.escape(nm), canon, body)      # not the letter of an escape sequence ('\\n')
     return body
 
 
@@ -217,7 +217,13 @@ def extract(tree):
         raise ExtractError("escapeu: code point limit not recognised")
     c["maxCodepoint"] = csrc.cint(m.group(1))
     # ---- stringend: every read of the scratch buffer must be guarded by the current length (no stale bytes are looked at)
-    body = norm(csrc.func_body(src, "stringend"))
+    # locals are free: alpha-rename them to the names used below (renaming a local is behaviour preserving)
+    body = norm(canon_locals(csrc.func_body(src, "stringend"), [
+        (r"uint8_t\s*\*\s*(\w+)\s*=\s*p->buf\s*;", "bufstart"), (r"int32_t\s+(\w+)\s*=\s*\(\s*int32_t\s*\)\s*p->bufcount\s*;", "buflen"),
+        (r"JanetParseState\s+(\w+)\s*=\s*p->states\s*\[", "top"),
+        (r"uint8_t\s*\*\s*(\w+)\s*=\s*\w+\s*,\s*\*", "r"), (r"uint8_t\s*\*\s*\w+\s*=\s*\w+\s*,\s*\*\s*(\w+)\s*=", "end"),
+        (r"int32_t\s+(\w+)\s*=\s*\(\s*int32_t\s*\)\s*\w+\.column", "indent_col"), (r"\bint\s+(\w+)\s*=\s*1\s*;", "reindent"),
+        (r"uint8_t\s*\*\s*(\w+)\s*=\s*\w+\s*;\s*\w+\s*=\s*\w+\s*;\s*while", "w"), (r"for\s*\(\s*int32_t\s+(\w+)\s*=\s*0\s*;", "j")]))
     g = {}
     for key, rx in (("stripLeadCRLFGuard", r"if\(buflen>(\d+)&&bufstart\[0\]=='\\r'&&bufstart\[1\]=='\\n'\)"),
                     ("stripLeadLFGuard", r"elseif\(buflen>(\d+)&&bufstart\[0\]=='\\n'\)"),
@@ -312,7 +318,8 @@ def extract(tree):
             for e in evs:
                 if not (coll and coll[-1] == e == "error=static"):
                     coll.append(e)
-            err_writes.append((fn, coll))
+            # writes to the two different fields are independent statements: canonical order = the `error` writes, then the `flag` writes
+            err_writes.append((fn, [e for e in coll if e.startswith("error")] + [e for e in coll if not e.startswith("error")]))
     c["errFlagWrites"] = err_writes
     c["staticErrors"] = sorted(set(re.findall(r"->error\s*=\s*(\"(?:[^\"\\]|\\.)*\")\s*;", src)))
     calls = re.findall(r"\bdelim_error\s*\(([^;{}]*)\)\s*;", src)
